@@ -541,6 +541,16 @@ def range_template(rnd):
         name = 'RNG'
         wb.names[name] = ('b1.xlsx', ('ref', R))
         put(6, ('call', 'SUM', [('name', name)]))
+        if rnd.random() < 0.6:
+            # one formula that reads the name and the very range it stands for
+            put(7, ('bin', '-', ('call', 'SUM', [('name', name)]), ('call', 'SUM', [('ref', R)])))
+    wb.cellname = None
+    if 3 in pop and rnd.random() < 0.5:
+        # a name for the single cell A3, and a formula reading both the name and the cell
+        wb.cellname = 'THIRD'
+        wb.names['THIRD'] = ('b1.xlsx', ('ref', (0, 3, 3, 1, 1)))
+        put(8, ('bin', '+', ('name', 'THIRD'), cell(3)))
+        put(9, ('bin', '*', ('name', 'THIRD'), ('lit', 10)))
     wb.explicit = wb.has_array or rnd.random() < 0.5
     if not wb.explicit:
         # blanks stay unlisted: formulas reading an unpopulated cell on its own are dropped (a range override does not
